@@ -10,10 +10,10 @@ import (
 
 	"github.com/ulikunitz/xz"
 	"github.com/ulikunitz/xz/lzma"
+	"time"
 	"verif/internal/hx"
 	"verif/internal/ref"
 	"verif/internal/tlc"
-	"time"
 )
 
 func init() { Checks["C09"] = C09 }
@@ -64,12 +64,16 @@ func faultScenarios(seed int64) []faultScenario {
 		faultScenario{"xz-empty-writes", "xz", xzOpen(XZCfg{LC: 0, LP: 2, PB: 1, DictCap: 4096, BufSize: 4096, Check: 10, Matcher: 1, BlockSize: 1000}), []string{"W2", "W0", "W2", "C", "W1"}, [][]byte{text, rnd, {}}, decXZ},
 		faultScenario{"xz-incompressible-multichunk", "xz", xzOpen(XZCfg{LC: 3, PB: 2, DictCap: 4096, BufSize: 4096, Check: -1}), []string{"W0", "C"}, [][]byte{MakeData("random", 140000, seed+2)}, decXZ},
 	)
+	out = append(out, faultScenario{"xz-raw-wrapped-ring", "xz", xzOpen(XZCfg{LC: 3, PB: 2, DictCap: 65536, BufSize: 4096, Check: 4}), []string{"W0", "C"}, [][]byte{MakeData("random", 230000, seed+7)}, decXZ})
 	l2Open := func(g W2Cfg) func(io.Writer) (wcl, error) {
 		return func(w io.Writer) (wcl, error) { return g.lib().NewWriter2(w) }
 	}
 	out = append(out,
 		faultScenario{"lzma2-flushes", "lzma2", l2Open(W2Cfg{3, 0, 2, 4096, 4096, 0}), []string{"W0", "F", "W1", "F", "F", "W0", "C", "C"}, [][]byte{text, rnd}, decL2},
 		faultScenario{"lzma2-multichunk", "lzma2", l2Open(W2Cfg{3, 0, 2, 4096, 273, 1}), []string{"W0", "W1", "C"}, [][]byte{MakeData("random", 70000, seed+3), text}, decL2},
+		// incompressible data longer than dictionary + look-ahead: raw chunks are copied out of the
+		// encoder's ring buffer in two segments once it has wrapped (one sink write per segment)
+		faultScenario{"lzma2-raw-wrapped-ring", "lzma2", l2Open(W2Cfg{3, 0, 2, 65536, 4096, 0}), []string{"W0", "F", "W1", "F", "W0", "F", "W1", "C"}, [][]byte{MakeData("random", 50000, seed+5), MakeData("random", 41000, seed+6)}, decL2},
 		faultScenario{"lzma2-close-only", "lzma2", l2Open(W2Cfg{3, 0, 2, 4096, 4096, 0}), []string{"W0", "C"}, [][]byte{text}, decL2},
 	)
 	aOpen := func(g AloneCfg) func(io.Writer) (wcl, error) {
